@@ -685,3 +685,27 @@ fn gen_program_tail(seed: u64, run: u64, opts: &GenOpts, target: bool) -> Progra
     }
     Program { config, instrs: g.out }
 }
+
+/// generate `len` more instructions continuing from `model` (engine E2 segments)
+pub fn gen_from(seed: u64, run: u64, opts: &GenOpts, model: Model, len: usize) -> (Vec<Instr>, Model) {
+    let mut crng = Rng::new(seed, run, STREAM_CONFIG);
+    let mut weights = [0u32; NCLASS];
+    for c in 0..NCLASS {
+        let swarm = *crng.pick(&[0u32, 1, 2, 2, 4]);
+        let class: Class = unsafe { std::mem::transmute(c) };
+        weights[c] = base_weight(class, model.kind) * opts.emphasis[c] * swarm;
+    }
+    weights[Class::Leaf as usize] = weights[Class::Leaf as usize].max(30);
+    weights[Class::Binary as usize] = weights[Class::Binary as usize].max(60);
+    weights[Class::Order as usize] = 0;
+    weights[Class::Names as usize] = 0;
+    weights[Class::Dddmp as usize] = 0;
+    weights[Class::AddVars as usize] = 0;
+    let mut g = Gen { rng: Rng::new(seed, run, STREAM_WORKLOAD), model, opts, weights, out: vec![] };
+    let mut guard = 0;
+    while g.out.len() < len && guard < 10 * len + 20 {
+        g.step();
+        guard += 1;
+    }
+    (g.out, g.model)
+}
